@@ -104,6 +104,29 @@ def run(tier, seed):
             ok, obs = False, f"raises {type(e).__name__}: {e}"
         loc.case(p.key(), ok, observed=obs, inputs={"definition": p.text.split(chr(10))[-1], "align": p.align})
     loc.add_to(rep)
+    # in-place mutation of one cell of a default-constructed instance (array element, field of an array element, nested
+    # field) changes exactly that cell: no two cells of a default instance are the same object
+    cell = Bounded("in-place-cell-assignment", "family F singles (fixed-size, non-union) + arrays of arrays / of structures: every integer cell reachable in a default instance (<= 12 per program) set in place, dump re-parsed and compared cell by cell")
+    for p in [q for q in sets.singles(endians=("<",), aligns=(False,)) if _fixed(q) and not q.union]:
+        try:
+            T = p.load(False).T
+            n_cells = len(_cells(T()))
+        except Exception:  # noqa: BLE001
+            continue
+        for ci in range(min(n_cells, 12)):
+            try:
+                x = T()
+                base = _leaves(T(x.dumps()))
+                setter = _cells(x)[ci]
+                setter(1)
+                after = _leaves(T(x.dumps()))
+                changed = [i for i, (u, v) in enumerate(zip(base, after)) if u != v]
+                ok = len(base) == len(after) and len(changed) == 1
+                obs = f"cell #{ci} set to 1 in a default instance: {len(changed)} cells differ after dumps/parse ({changed[:6]})"
+            except Exception as e:  # noqa: BLE001
+                ok, obs = False, f"raises {type(e).__name__}: {e}"
+            cell.case((p.key(), ci), ok, observed=obs, inputs={"definition": p.text.split(chr(10))[-1], "cell": ci})
+    cell.add_to(rep)
     b.add_to(rep)
     rep.extra["rule"] = "templates for n fields (n in a fixed list up to 24); assignment locality per fixed-size program; instance pairs per program"
     rep.extra["explanation"] = (
@@ -130,3 +153,56 @@ def _fixed(p):
         return p.load(False).T.size is not None
     except Exception:  # noqa: BLE001
         return False
+
+
+def _cells(obj, depth=0):
+    """Setters for every plain-integer cell reachable in an instance through fields, nested structures and lists."""
+    import enum
+
+    from dissect.cstruct.types import Structure, Union
+
+    out = []
+    if depth > 5:
+        return out
+
+    def plain(v):
+        return isinstance(v, int) and not isinstance(v, (bool, enum.Enum)) and not hasattr(v, "dereference")
+
+    def walk_list(lst, d):
+        for i, v in enumerate(lst):
+            if plain(v):
+                out.append(lambda val, lst=lst, i=i: lst.__setitem__(i, val))
+            elif isinstance(v, list):
+                walk_list(v, d + 1)
+            elif isinstance(v, Structure) and not isinstance(v, Union):
+                out.extend(_cells(v, d + 1))
+
+    for f in type(obj).__fields__:
+        if f.bits:
+            continue
+        v = getattr(obj, f._name)
+        if type(v).__name__ == "UnionProxy" or isinstance(v, Union):
+            continue  # members of a union are views of one buffer by design (C11)
+        if plain(v):
+            out.append(lambda val, o=obj, n=f._name: setattr(o, n, val))
+        elif isinstance(v, list):
+            walk_list(v, depth + 1)
+        elif isinstance(v, Structure):
+            out.extend(_cells(v, depth + 1))
+    return out
+
+
+def _leaves(v):
+    from runtime.sig import repr_value
+
+    flat = []
+
+    def walk(x):
+        if isinstance(x, tuple):
+            for y in x:
+                walk(y)
+        else:
+            flat.append(x)
+
+    walk(repr_value(v))
+    return flat
